@@ -1213,3 +1213,33 @@ class IndexRoundTripLemmas(Contract):
                                                                                                                                         Fa.nn(i) == Fb.nn(i)))))),
             ("append==single-export:same-reloaded-points", z3.Implies(z3.And(hyp2, reader_post(Fa, D1), reader_post(Fb, D2)), same_points(D1, D2))),
         ]
+
+
+@register
+class ValueRoundTripLemmas(Contract):
+    """reader(writer(db)) == db at VALUE level, as a lemma over the contracts: if the node has the index view of to_file for the
+    database D and the record of every point i encodes exactly the names and values of D's i-th point (``pt_is`` - the per-point
+    postcondition of the writers, see PointRoundTripLemmas; its assembly into a file-level invariant of to_file is NOT proved, it is a
+    hypothesis here), then the database rebuilt by update_from_file (postcondition of UpdateFromFile incl. its content clauses) has
+    the same points in the same order, each with exactly the same output names and the same values."""
+
+    targets = ()
+    prop = ("C11",)
+    lemma = True
+
+    def lemmas(self):
+        D, D1 = _FreeDb(""), _FreeDb("1")
+        F = _free_node("a")
+        i, nm = z3.Int("i!vr"), z3.Const("nm!vr", StrS)
+        rng = z3.And(0 <= i, i < D.n)
+        e0, e1 = D.vals[D.keys[i]], D1.vals[D1.keys[i]]
+        per_point = z3.ForAll([i], z3.Implies(rng, z3.And(*[f for l, f in pt_is(F, i, o_member(e0), o_vals(e0)) if l in ("names", "values")])))
+        reader = z3.And(D1.n == F.Xn, z3.ForAll([i], z3.Implies(z3.And(0 <= i, i < F.Xn), D1.keys[i] == key_of(F.xval(i)))),
+                        z3.ForAll([i, nm], z3.Implies(z3.And(0 <= i, i < F.Xn), o_member(e1)[nm] == F.fhas(i, nm))),
+                        z3.ForAll([i, nm], z3.Implies(z3.And(0 <= i, i < F.Xn, F.fhas(i, nm)), o_vals(e1)[nm] == F.fval(i, nm))))
+        hyp = z3.And(*[f for _, f in axioms_naming()], *D.facts(), *exported_view(F, D), per_point, reader)
+        return [
+            ("same-points-in-the-same-order", z3.Implies(hyp, z3.And(D1.n == D.n, z3.ForAll([i], z3.Implies(rng, D1.keys[i] == D.keys[i]))))),
+            ("same-output-names-per-point", z3.Implies(hyp, z3.ForAll([i, nm], z3.Implies(rng, z3.And(D1.keys[i] == D.keys[i], o_member(e1)[nm] == o_member(e0)[nm]))))),
+            ("same-values-per-point", z3.Implies(hyp, z3.ForAll([i, nm], z3.Implies(z3.And(rng, o_member(e0)[nm]), z3.And(D1.keys[i] == D.keys[i], o_vals(e1)[nm] == o_vals(e0)[nm]))))),
+        ]
